@@ -216,7 +216,8 @@ bool Generator::GeneratorImpl::isRootOperator(const AnalyserEquationAstPtr &ast)
 
 bool Generator::GeneratorImpl::isPiecewiseStatement(const AnalyserEquationAstPtr &ast) const
 {
-    return (ast->type() == AnalyserEquationAst::Type::PIECEWISE)
+    return (ast != nullptr)
+           && (ast->type() == AnalyserEquationAst::Type::PIECEWISE)
            && mProfile->hasConditionalOperator();
 }
 
@@ -1326,6 +1327,13 @@ std::string Generator::GeneratorImpl::generateCode(const AnalyserEquationAstPtr 
     //       is in the case of the analyser when we want to mention an equation)
     //       since otherwise we don't need to generate any code for it (since we
     //       will, instead, want to generate something like rates[0]).
+
+    // Nothing to generate for a missing operand (e.g., a piecewise element
+    // without any children, which the validator and the analyser accept).
+
+    if (ast == nullptr) {
+        return {};
+    }
 
     std::string code;
 
